@@ -248,11 +248,12 @@ Definition update_trace_flow (s : state) (id : Z) (r : round_rec) : result state
   Ok {| st_max_samples := st_max_samples s; st_max_flows := st_max_flows s; st_round_flow_id := st_round_flow_id s;
         st_flows := flows_set (st_flows s) id f'; st_registry := st_registry s; st_error := st_error s |}.
 
-(* the flow of a round: filter_map (Awaited -> None, Complete -> host), take(largest_ttl) *)
+(* the flow of a round: filter_map (Awaited | Failed -> None, Complete -> host), take(largest_ttl)
+   (a probe whose send failed keeps its position as an unknown hop: repaired, F20) *)
 Definition round_flow (r : round_rec) : flow :=
   from_hops (firstn (Z.to_nat (rr_largest_ttl r))
     (flat_map (fun st => match st with
-                         | Awaited _ => [None]
+                         | Awaited _ | Failed _ => [None]
                          | Complete c => [Some (c_host c)]
                          | _ => [] end) (rr_probes r))).
 
